@@ -115,6 +115,144 @@ func (e *Engine) bigMake(lt, ct *Term, instr *ssa.MakeSlice) Value {
 	return sl
 }
 
+// SymElemPtr is &x[i] with a symbolic in-range index whose only uses are loads: the load becomes
+// an ite over the cells (scalars) or a fork per group of identical cells (tables of slices,
+// strings, ...), instead of one path per feasible index.
+type SymElemPtr struct {
+	cells []Value
+	idx   *Term // 64-bit, proven in range on this path
+}
+
+func onlyLoaded(instr *ssa.IndexAddr) bool {
+	refs := instr.Referrers()
+	if refs == nil || len(*refs) == 0 {
+		return false
+	}
+	for _, r := range *refs {
+		u, ok := r.(*ssa.UnOp)
+		if !ok || u.Op != token.MUL {
+			if _, isDbg := r.(*ssa.DebugRef); isDbg {
+				continue
+			}
+			return false
+		}
+	}
+	return true
+}
+
+func (e *Engine) symElemPtr(cells []Value, idx *Term, it types.Type) Value {
+	_, signed, _, _ := basicInfo(it)
+	i64 := e.tt.Resize(idx, 64, signed)
+	inb := e.tt.Ult(i64, e.tt.Const(64, uint64(len(cells))))
+	if !e.Decide(inb) {
+		panic(e.targetPanicStr(fmt.Sprintf("runtime error: index out of range [symbolic] with length %d", len(cells))))
+	}
+	return SymElemPtr{cells: cells, idx: i64}
+}
+
+// symLoad reads cells[idx] for a symbolic in-range idx.
+func (e *Engine) symLoad(p SymElemPtr) Value {
+	n := len(p.cells)
+	allTerms := true
+	for _, c := range p.cells {
+		if _, ok := c.(*Term); !ok {
+			allTerms = false
+			break
+		}
+	}
+	if allTerms {
+		// group equal terms; the most frequent value becomes the default arm
+		groups := map[*Term][]int{}
+		var order []*Term
+		for i, c := range p.cells {
+			t := c.(*Term)
+			if _, ok := groups[t]; !ok {
+				order = append(order, t)
+			}
+			groups[t] = append(groups[t], i)
+		}
+		def := order[0]
+		for _, t := range order {
+			if len(groups[t]) > len(groups[def]) {
+				def = t
+			}
+		}
+		res := def
+		for _, t := range order {
+			if t == def {
+				continue
+			}
+			cond := e.tt.False
+			for _, i := range groups[t] {
+				cond = e.tt.Or(cond, e.tt.Eq(p.idx, e.tt.Const(64, uint64(i))))
+			}
+			res = e.tt.Ite(cond, t, res)
+		}
+		return res
+	}
+	// non-scalar cells: fork per group of identical cells
+	type grp struct {
+		rep  int
+		idxs []int
+	}
+	var groups []*grp
+	keyOf := func(v Value) string {
+		switch x := v.(type) {
+		case []Value:
+			if x == nil {
+				return "nilslice"
+			}
+			if len(x) == 0 {
+				return "emptyslice"
+			}
+			return fmt.Sprintf("slice:%p:%d", &x[0], len(x))
+		case *Value:
+			return fmt.Sprintf("ptr:%p", x)
+		case Str:
+			if x.Concrete() {
+				return "str:" + x.S
+			}
+		case *Closure:
+			return fmt.Sprintf("clo:%p", x)
+		case *ssa.Function:
+			return fmt.Sprintf("fn:%p", x)
+		}
+		return ""
+	}
+	byKey := map[string]*grp{}
+	for i, c := range p.cells {
+		k := keyOf(c)
+		if k == "" {
+			groups = append(groups, &grp{rep: i, idxs: []int{i}})
+			continue
+		}
+		if g, ok := byKey[k]; ok {
+			g.idxs = append(g.idxs, i)
+		} else {
+			g := &grp{rep: i, idxs: []int{i}}
+			byKey[k] = g
+			groups = append(groups, g)
+		}
+	}
+	if len(groups) > e.cfg.Limits.MaxConcretize {
+		panic(boundErr{fmt.Sprintf("symbolic index over %d distinct non-scalar cells%s", len(groups), e.where())})
+	}
+	for gi, g := range groups {
+		if gi == len(groups)-1 {
+			return copyVal(p.cells[g.rep])
+		}
+		cond := e.tt.False
+		for _, i := range g.idxs {
+			cond = e.tt.Or(cond, e.tt.Eq(p.idx, e.tt.Const(64, uint64(i))))
+		}
+		if e.Decide(cond) {
+			return copyVal(p.cells[g.rep])
+		}
+	}
+	_ = n
+	panic("unreachable")
+}
+
 func (e *Engine) bigLenOf(x []Value) *Term {
 	if e.path == nil || e.path.bigLen == nil || len(x) == 0 {
 		return nil
@@ -201,6 +339,9 @@ func (e *Engine) sliceOp(instr *ssa.Slice, x, lo, hi, max Value) Value {
 func (e *Engine) unop(instr *ssa.UnOp, x Value) Value {
 	switch instr.Op {
 	case token.MUL: // load
+		if sp, isSym := x.(SymElemPtr); isSym {
+			return e.symLoad(sp)
+		}
 		p, ok := x.(*Value)
 		if !ok {
 			e.isNilPanicCheck(x)
